@@ -59,7 +59,7 @@ def _gen(g):
     n = g.int(1, 6)
     calls = [{"abandon": g.chance(35), "mode": g.weighted([(75, "value"), (25, "raise")]),
               "cb": g.weighted([(60, None), (20, "run_sync"), (20, "run")]), "cc": g.chance(35),
-              "nest": g.chance(40)} for _ in range(n)]
+              "nest": g.chance(40), "shielded": g.chance(30)} for _ in range(n)]
     ctl = []
     for _ in range(g.int(2, 3 * n + 2)):
         k = g.weighted([(40, "open"), (25, "cancel"), (20, "entered"), (15, "yield")])
@@ -147,7 +147,8 @@ def run_once(case, out, stats):
             spec = case["calls"][i]
             var.set(i)
             import contextlib
-            with CancelScope() as sc, (CancelScope() if spec.get("nest") else contextlib.nullcontext()):
+            with CancelScope(shield=bool(spec.get("shielded"))) as sc, \
+                    (CancelScope() if spec.get("nest") else contextlib.nullcontext()):
                 scopes[i] = sc      # with "nest" the cancelled scope is an ancestor of the one run_sync sits in
                 try:
                     r = await to_thread.run_sync(fn, i, abandon_on_cancel=spec["abandon"], limiter=limiter_arg)
